@@ -86,3 +86,59 @@ M("c20-lowercase-names", ["C20"], (UT, "        name = chr(65 + mod) + name", " 
 M("c20-html-no-upper", ["C20"], (UT, "    return code.upper()", "    return code"))
 M("c20-3digit-expansion", ["C20"], (UT, '        code = "".join([code[0], code[0], code[1], code[1], code[2], code[2]])', '        code = "".join([code[0], code[1], code[1], code[1], code[2], code[2]])'))
 M("c20-rgb-third-byte", ["C20"], (UT, "        rgb = (hex2dec(code[:2]), hex2dec(code[2:4]), hex2dec(code[4:6]))", "        rgb = (hex2dec(code[:2]), hex2dec(code[2:4]), hex2dec(code[4:]) % 255 if code[4:6] == \"ff\" else hex2dec(code[4:6]))"))
+
+# ---- C04 / C06 ------------------------------------------------------------
+M("c04-len-gt-3", ["C04"], (DI, "                len(nodesInCurrentLayer) > 2 and currentLayerWidth > maxWidth", "                len(nodesInCurrentLayer) > 3 and currentLayerWidth > maxWidth"))
+M("c04-no-stub-in-layer0", ["C04", "C07"], (DI, "                for j in range(i - 1, -1, -1):\n                    stub = stub.createStub(self.options[\"stubWidth\"])\n                    layers[j].append(stub)\n\n        return layers",
+  "                for j in range(i - 1, 0, -1):\n                    stub = stub.createStub(self.options[\"stubWidth\"])\n                    layers[j].append(stub)\n\n        return layers"))
+M("c04-stub-width-hardcoded", ["C04"], (DI, "                    stub = stub.createStub(self.options[\"stubWidth\"])\n                    layers[j].append(stub)\n\n        return layers", "                    stub = stub.createStub(1)\n                    layers[j].append(stub)\n\n        return layers"))
+M("c04-stub-without-data", ["C04"], (NO, "        stub = Node(self.idealPos, width, self.data)", "        stub = Node(self.idealPos, width)"))
+M("c04-need-to-split-ge", ["C04"], (DI, "        return self.estimateRequiredLayers(nodes) > 1", "        return self.estimateRequiredLayers(nodes) >= 1 and len(nodes) > 7"))
+M("c04-layers-dropped-last", ["C04"], (FO, "        self.layers = layers\n", "        self.layers = layers[:-1] if len(layers) > 2 else layers\n"))
+M("c04-stubwidth-not-counted", ["C04"], (DI, "                currentLayerWidth += self.options[\"stubWidth\"]\n", ""))
+M("c04-simple-mod-offbyone", ["C04"], (DI, "            for j in range(mod - 1, -1, -1):", "            for j in range(mod - 1, 0, -1):"))
+M("c06-no-remove-stub", ["C06", "C04"], (FO, "        for node in self._nodes:\n            node.removeStub()\n", ""))
+M("c06-stub-target-stale", ["C06", "C02"], (RO, "            node.parent.currentPos if node.parent else node.idealPos", "            node.parent.currentPos if node.parent else (node.idealPos if node.layerIndex == 0 else node.currentPos)"))
+M("c06-sort-reversed-ties", ["C06"], (DI, "        nodes = sorted(nodes, key=lambda x: x.idealPos)", "        nodes = sorted(nodes, key=lambda x: (x.idealPos, -x.width))"))
+M("c06-overlapcount-cached", ["C06"], (DI, "            node.overlaps = [x.data for x in overlaps]\n            node.overlapCount = len(overlaps)", "            node.overlaps = [x.data for x in overlaps]\n            node.overlapCount = max(node.overlapCount, len(overlaps))"))
+M("c06-set-options-stale-layerwidth", ["C06", "C04"], (FO, "        else:\n            disOptions[\"layerWidth\"] = None\n", "        else:\n            pass\n"))
+
+# ---- C07 - C11 -------------------------------------------------------------
+M("c07-revert-time-of-day-fix", ["C07"], (TL, "            if isinstance(time, datetime.datetime):\n                pass\n            elif isinstance(time, datetime.date):", "            if isinstance(time, datetime.date):"))
+M("c07-dots-at-currentpos", ["C07", "C09"], (TL, "            attrib[field] = str(node.getRoot().idealPos)", "            attrib[field] = str(node.getRoot().currentPos)"))
+M("c07-link-of-next-node", ["C07", "C09"], (TL, "            attrib[\"d\"] = self.renderer.generatePath(node)", "            attrib[\"d\"] = self.renderer.generatePath(self.nodes[(i + 1) % len(self.nodes)] if len(self.nodes) > 6 else node)"))
+M("c07-left-formula", ["C07", "C08"], (TL, "            return (d.x - d.w + d.dx, d.y - d.dy / 2)", "            return (d.x - d.w, d.y - d.dy / 2)"))
+M("c07-waypoints-skip-last-hop", ["C07"], (RE, "        hops = node.getPathFromRoot()\n", "        hops = node.getPathFromRoot()\n        if len(hops) > 2:\n            hops = hops[:1] + hops[2:]\n"))
+M("c07-ticks-from-niced-copy", ["C07"], (TL, "        scale = self.options[\"scale\"]\n        tick_text = map(scale.tickFormat(), scale.ticks())\n        tick_pos = map(scale, scale.ticks())", "        scale = self.options[\"scale\"]\n        tick_text = map(scale.tickFormat(), scale.copy().nice(5).ticks())\n        tick_pos = map(scale, scale.ticks())"))
+M("c07-padding-left-twice", ["C07"], (TL, "                + self.options[\"labelPadding\"][\"left\"]\n                + self.options[\"labelPadding\"][\"right\"]", "                + self.options[\"labelPadding\"][\"left\"]\n                + self.options[\"labelPadding\"][\"left\"]"))
+M("c07-range-swapped-leftright", ["C07"], (TL, "            self.options[\"scale\"].range([0, innerHeight])", "            self.options[\"scale\"].range([0, innerWidth])"))
+M("c08-layer-offset-drops-nodeheight", ["C08"], (RE, "        gap = options[\"layerGap\"] + options[\"nodeHeight\"]\n\n        if direction == \"left\":", "        gap = options[\"layerGap\"] + options[\"nodeHeight\"] * 0.5\n\n        if direction == \"left\":"))
+M("c08-up-uses-plus", ["C08", "C07"], (RE, "                node.y = -pos - options[\"nodeHeight\"]", "                node.y = pos"))
+M("c08-thickness-min", ["C08"], (TL, "        if self.direction in [\"left\", \"right\"]:\n            nodeHeight = max((n.w for n in nodes))", "        if self.direction in [\"left\", \"right\"]:\n            nodeHeight = min((n.w for n in nodes))"))
+M("c09-tikz-labels-left-y", ["C09", "C08"], (TL, "                \"\\\\begin{scope}[shift={(%i, %i)}]\"\n                % (self.nodePos(node, nodeHeight))", "                \"\\\\begin{scope}[shift={(%i, %i)}]\"\n                % (self.nodePos(node, nodeHeight) if self.direction != \"left\" else (self.nodePos(node, nodeHeight)[0], node.y))"))
+M("c09-hex2html-no-3digit", ["C09", "C20"], (UT, "    if len(code) == 3:\n        code = \"\".join", "    if len(code) == 3 and False:\n        code = \"\".join"))
+M("c09-list-colour-offset-tikz", ["C09"], (TL, "                % (int2name(i), hex2html(self.linkColor(node.data.data, i)))", "                % (int2name(i), hex2html(self.linkColor(node.data.data, i + 1)))"))
+M("c09-tick-round-tikz", ["C09"], (TL, "                txt = \"\\\\begin{scope}[shift={(%i, %i)}]\\n\" % (pos, 0)\n                txt += \"\\\\draw[%s] (0, %s) -- (0, -6pt)\\n\"", "                txt = \"\\\\begin{scope}[shift={(%i, %i)}]\\n\" % (pos + 1.5, 0)\n                txt += \"\\\\draw[%s] (0, %s) -- (0, -6pt)\\n\""))
+M("c09-border-colour-from-bg", ["C09"], (TL, "                % (int2name(i), hex2html(self.borderColor(node.data.data, i)))", "                % (int2name(i), hex2html(self.labelBgColor(node.data.data, i)))"))
+M("c10-revert-shared-defaults-fix", ["C10"], (TL, "        if not (options and \"scale\" in options):\n            self.options[\"scale\"] = DEFAULT_OPTIONS[\"scale\"].copy()\n        self.options[\"labella\"] = dict(self.options[\"labella\"])\n", ""))
+M("c10-class-level-nodes-cache", ["C10"], (TL, "    def get_nodes(self):\n        nodes = []\n", "    _cache = {}\n\n    def get_nodes(self):\n        key = (len(self.items), self.direction)\n        if key in Timeline._cache:\n            return Timeline._cache[key]\n        nodes = Timeline._cache.setdefault(key, [])\n"))
+M("c10-latex-defaults-in-place", ["C10"], (TL, "        latex_opts = {k: v for k, v in DEFAULT_OPTIONS[\"latex\"].items()}", "        latex_opts = DEFAULT_OPTIONS[\"latex\"]"))
+M("c11-revert-options-none-fix", ["C11"], (TL, "        if options is None:\n            options = {}\n", ""))
+M("c11-revert-degenerate-fix", ["C11"], (SC, "    b = (b - a) or float(\"inf\")\n    return lambda x: (x - a) / b\n", "    return lambda x: (x - a) / (b - a)\n"))
+M("c11-days-this-month-december", ["C11", "C17"], (DT, "    lambda date, offset: d3_time_month_offset(date, offset),", "    lambda date, offset: d3_time_month_offset(date, offset) if date.month + offset != 13 else date.replace(year=date.year + 1, month=1, day=date.day + 0 if date.day < 2 else 1),"))
+
+# ---- behaviour-preserving edits: every check must stay silent ----------------
+EQUIVALENT = []
+
+
+def E(name, props, *edits):
+    EQUIVALENT.append({"name": name, "props": props, "edits": [tuple(e) for e in edits]})
+
+
+E("eq-split-skips-update-of-block-positions", ["C05", "C01", "C02"], (VP, "    def split(self, inactive):\n        self.updateBlockPositions()\n", "    def split(self, inactive):\n"))
+E("eq-mostviolated-really-pops", ["C05", "C01"], (VP, "            l[deletePoint] = l[n - 1]\n            l = l[:-1]\n", "            l[deletePoint] = l[n - 1]\n            del l[-1]\n"))
+E("eq-copy-with-slices", ["C12", "C14"], (SC, "            list(self._domain),\n            list(self._range),", "            self._domain[:],\n            self._range[:],"))
+E("eq-removeoverlap-sorted-copy", ["C01", "C02", "C03", "C06"], (RO, "    nodes.sort(key=lambda x: x.targetPos)\n", "    nodes[:] = sorted(nodes, key=lambda x: x.targetPos)\n"))
+E("eq-int2name-divmod", ["C20"], (UT, "        mod = (div - 1) % 26\n        name = chr(65 + mod) + name\n        div = (div - mod) // 26", "        div, mod = divmod(div - 1, 26)\n        name = chr(65 + mod) + name"))
+E("eq-day-floor-via-replace", ["C17", "C16"], (DT, "    lambda date: datetime(date.year, date.month, date.day),", "    lambda date: date.replace(hour=0, minute=0, second=0, microsecond=0),"))
+E("eq-dict-copy-options", ["C10", "C07"], (TL, "        self.options = {k: v for k, v in DEFAULT_OPTIONS.items()}", "        self.options = dict(DEFAULT_OPTIONS)"))
